@@ -204,6 +204,8 @@ func upExec(c *hlib.RunCtx, t *simrt.Tape) (*hlib.Violation, int) {
 		m.fail("panic", "a panic escaped upload.Run: %v\n%s", tk.Panic, tk.PanicStack)
 	case capped || !tk.Done:
 		m.fail("waits-forever", "upload.Run did not return within the step budget (at %s)", tk.Label)
+	case s.LoopOverrun != "":
+		m.fail("unbounded-loop", "a loop at %s ran %d iterations without reaching a system call: the uploader does not return in a bounded number of steps (it was stopped by the simulator's loop budget)", s.LoopOverrun, 10_000_000)
 	}
 	if m.viol == nil {
 		m.checkNoInflation()
